@@ -409,8 +409,121 @@ def _model_path(s, bip380):
     return out
 
 
+# ------------------------------------------------------------------------------------------------ deep chains; history
+def deep_and_history(ctx):
+    """(a) chains to depth 255 crossing the text form at every split around 127/128; (b) E2: histories over
+    {parse a path string, edit the list that was answered, derive}: the answer to a later call never depends on what
+    the caller did with an earlier answer."""
+    from btclib.bip32 import bip32
+    from btclib.bip32.der_path import hardenings_from_der_path, indexes_from_der_path
+    from btclib.bip32.key_origin import BIP32KeyOrigin
+    from btclib.network import NETWORKS
+
+    st = Stats()
+    errs = lib_errors()
+    seed = bytes(range(16))
+    k, c = M.master(seed)
+    main = NETWORKS["mainnet"].bip32_prv
+    for serving in (True, False):
+        with backend(serving):
+            root = bip32.rootxprv_from_seed(seed)
+            # model chain: alternating plain / hardened steps
+            steps = [(j % 3) + (2**31 if j % 5 == 0 else 0) for j in range(255)]
+            chain = [(k, c)]
+            for i in steps:
+                chain.append(M.ckd_prv(chain[-1][0], chain[-1][1], i))
+
+            def spelled(ix):
+                return "/".join(str(i - 2**31) + "h" if i >= 2**31 else str(i) for i in ix)
+
+            for d in (1, 2, 126, 127, 128, 129, 200, 254, 255):
+                st.evals += 1
+                st.nontrivial += 1
+                case = {"depth": d, "bindings": serving}
+                try:
+                    text = bip32.derive(root, "m/" + spelled(steps[:d]))
+                    data = bip32.BIP32KeyData.b58decode(text)
+                except errs as e:
+                    st.violation("C07/deep/refused", case, repr(e)[:80], "a key at that depth")
+                    continue
+                kd, cd = chain[d]
+                if data.depth != d or data.chain_code != cd or int.from_bytes(data.key[1:], "big") != kd or data.index != steps[d - 1]:
+                    st.violation("C07/deep/differs-from-model", case, (data.depth, data.index), (d, steps[d - 1]))
+                # every split through the text form around the signed-octet edge
+                for cut in sorted({1, 126, 127, 128, 129, d - 1} & set(range(1, d))):
+                    st.evals += 1
+                    try:
+                        head = bip32.derive(root, "m/" + spelled(steps[:cut]))
+                        whole = bip32.derive(head, "m/" + spelled(steps[cut:d]))
+                    except errs as e:
+                        st.violation("C07/deep/split-refused", dict(case, cut=cut), repr(e)[:80], "the same key")
+                        continue
+                    if whole != text:
+                        st.violation("C07/deep/split-differs", dict(case, cut=cut), whole[:20], text[:20])
+                # neutered, decoded from text
+                try:
+                    xp = bip32.xpub_from_xprv(text)
+                    if bip32.BIP32KeyData.b58decode(xp).depth != d:
+                        st.violation("C07/deep/xpub-depth", case, bip32.BIP32KeyData.b58decode(xp).depth, d)
+                except errs as e:
+                    st.violation("C07/deep/xpub-refused", case, repr(e)[:80], "an xpub")
+            # one level further is refused, not wrapped
+            st.evals += 1
+            try:
+                bip32.derive(root, "m/" + spelled(steps + [0]))
+                st.violation("C07/deep/depth-256-accepted", {"bindings": serving}, "a key", "refused")
+            except errs:
+                pass
+            # (b) histories: an answered list edited by the caller
+            paths = ["m/84h/0h/0h", "m/0/1", "m"]
+            for path in paths:
+                exp_ix = [int(x[:-1]) + 2**31 if x.endswith("h") else int(x) for x in path.split("/")[1:]]
+                kk, cc = k, c
+                for i in exp_ix:
+                    kk, cc = M.ckd_prv(kk, cc, i)
+                for edit in ("append", "clear", "set0", "none"):
+                    for getter in ("indexes_from_der_path", "hardenings_from_der_path", "BIP32KeyOrigin.der_path", "BIP32KeyOrigin.parse"):
+                        st.evals += 1
+                        st.states += 1
+                        st.transitions += 3
+                        st.nontrivial += 1
+                        case = {"path": path, "edit": edit, "getter": getter, "bindings": serving}
+                        try:
+                            if getter == "indexes_from_der_path":
+                                got = indexes_from_der_path(path)
+                            elif getter == "hardenings_from_der_path":
+                                got = hardenings_from_der_path(path)
+                            elif getter == "BIP32KeyOrigin.der_path":
+                                got = BIP32KeyOrigin(b"\x01\x02\x03\x04", path).der_path
+                            else:
+                                got = BIP32KeyOrigin.parse(BIP32KeyOrigin(b"\x01\x02\x03\x04", path).serialize()).der_path
+                            if isinstance(got, list):
+                                if edit == "append":
+                                    got.extend([0, 7])
+                                elif edit == "clear":
+                                    got.clear()
+                                elif edit == "set0" and got:
+                                    got[0] = 5
+                        except errs as e:
+                            st.violation("C07/history/getter-refused", case, repr(e)[:80], "a list")
+                            continue
+                        try:
+                            again = indexes_from_der_path(path)
+                            text = bip32.derive(root, path)
+                            data = bip32.BIP32KeyData.b58decode(text)
+                        except errs as e:
+                            st.violation("C07/history/refused-after-edit", case, repr(e)[:80], "the same answer")
+                            continue
+                        if list(again) != exp_ix:
+                            st.violation("C07/history/path-parse-depends-on-history", case, list(again), exp_ix)
+                        if data.depth != len(exp_ix) or data.chain_code != cc or int.from_bytes(data.key[1:], "big") != kk:
+                            st.violation("C07/history/derive-depends-on-history", case, (data.depth, data.index), (len(exp_ix), exp_ix[-1] if exp_ix else 0))
+    return st
+
+
 SUBS = [
     ("tree", tree),
     ("invalid_children", invalid_children),
     ("account_and_limits", account_and_limits),
+    ("deep_and_history", deep_and_history),
 ]
